@@ -169,6 +169,7 @@ def source(plan):
               ("        self._w = v" if plan.get("w_late") else "        hook_point('set_w')"),
               ("        hook_point('set_w')     # fails after it has changed the instance" if plan.get("w_late") else "        self._w = v"),
               "    @w.deleter", "    def w(self):", "        self._w = 0",
+              *(["        hook_point('del_w')     # fails after it has changed the instance"] if plan.get("w_late") else []),
               "    @property", "    @Field(dependencies=w)", "    def w2(self) -> int:", "        return self._w * 2"]
     if plan.get("inherit") and L[-1] == "    pass" and len(fs) > 0:
         pass
@@ -349,6 +350,11 @@ def generate(rng, tier):
             o2 = {"op": how, "field": "w", "value": v} if how == "setattr" else (
                 {"op": how, "field": "w", "key": "w", "value": v} if how == "setitem" else {"op": how, "items": [["w", v, "w"]]})
             ops.insert(rng.randrange(len(ops) + 1), o2)
+        if plan.get("w_late") and rng.random() < 0.5:
+            # ... and the deleter, which fails after it has changed the instance
+            plan["faults"]["hook"]["del_w"] = {str(rng.choice([1, 1, 2])): rng.choice(["ValueError", "OSError", "SimFault"])}
+            for _ in range(2):
+                ops.insert(rng.randrange(len(ops) + 1), {"op": "delattr", "field": "w"})
     if rng.random() < 0.3:
         plan["faults"]["input"] = {"fd.items.next": {str(rng.choice([1, 2, 3])): rng.choice(["OSError", "KeyError"])},
                                    "fd.__getitem__": {str(rng.choice([2, 3])): "OSError"}}
